@@ -10,7 +10,7 @@ def available(unit):
     return os.path.exists(os.path.join(VERIF, "contracts", "bounded", unit + ".rs"))
 
 
-def run(unit, functions, repo, scratch, timeout=900):
+def run(unit, functions, repo, scratch, timeout=1800, deep=False):
     """returns dict(ran=bool, failures=[{function, clause, input}], cmd, wall_s, note)"""
     t0 = time.time()
     src = os.path.join(VERIF, "contracts", "bounded", unit + ".rs")
@@ -78,7 +78,7 @@ def run(unit, functions, repo, scratch, timeout=900):
     if os.path.exists(lock):
         shutil.copy(lock, os.path.join(runner, "Cargo.lock"))
     env = dict(os.environ, CARGO_NET_OFFLINE="true", CARGO_TARGET_DIR=os.path.join(root, "target"), RUSTFLAGS="-Awarnings")
-    cmd = ["cargo", "build", "--offline", "--quiet"]
+    cmd = ["cargo", "build", "--offline", "--quiet"] + (["--release"] if deep else [])
     fails = []
     done = True
     note_parts = []
@@ -86,10 +86,13 @@ def run(unit, functions, repo, scratch, timeout=900):
         p = subprocess.run(cmd, cwd=runner, env=env, stdout=subprocess.PIPE, stderr=subprocess.PIPE, text=True, timeout=timeout)
         if p.returncode != 0:
             return dict(ran=False, failures=[], note="bounded harness does not build against this tree: " + p.stderr[-1500:], cmd=" ".join(cmd), wall_s=round(time.time() - t0, 1))
-        exe = os.path.join(root, "target", "debug", "verif-bounded-runner")
+        exe = os.path.join(root, "target", "release" if deep else "debug", "verif-bounded-runner")
         # one process per function, so that a panic inside one function's checks is attributed to it
         for fn in (list(functions) or [None]):
-            q = subprocess.run([exe] + ([fn] if fn else []), cwd=runner, stdout=subprocess.PIPE, stderr=subprocess.PIPE, text=True, timeout=timeout)
+            renv = dict(os.environ)
+            if deep:
+                renv["VERIF_BOUNDED_DEEP"] = "1"
+            q = subprocess.run([exe] + ([fn] if fn else []), cwd=runner, env=renv, stdout=subprocess.PIPE, stderr=subprocess.PIPE, text=True, timeout=timeout)
             fdone = False
             for line in q.stdout.split("\n"):
                 if line.startswith("FAIL "):
